@@ -39,6 +39,8 @@ type c04World struct {
 	committed   int // records[:committed] are covered by an output
 	l2Block     uint64
 	notes       []string
+	// restartL1: L1 goes through a genesis export / import between finalization and the claims
+	restartL1 bool
 }
 
 type c04Out struct {
@@ -167,6 +169,11 @@ func (w *c04World) settle(l2Block uint64) ([]c04Claimed, error) {
 			}
 		}
 	}
+	if w.restartL1 {
+		// L1 is restarted from its exported genesis between finalization and the claims (claims have no deadline)
+		tc.restartL1()
+		w.notes = append(w.notes, "L1 restarted from its exported genesis before the claims")
+	}
 	var out []c04Claimed
 	for _, co := range w.outs {
 		o := co.o
@@ -254,6 +261,9 @@ func TestC04Rapid(t *testing.T) {
 		}
 		// one history in four is committed by an output that covers far more withdrawals than these
 		w.extraLevels = rapid.SampledFrom([]int{0, 0, 0, 0, 0, 0, 0, 0, 0, 3, 10, 13, 14, 15, 16, 17, 20, 29, 32, 40, 61, 64}).Draw(rt, "extraLevels")
+		if w.restartL1 = rapid.IntRange(0, 3).Draw(rt, "restartL1") == 0; w.restartL1 {
+			c.Class("l1-restarted-from-genesis-before-the-claims")
+		}
 		repeatSteps(rt, nOps, func(i int) {
 			denom := rapid.SampledFrom(c04Denoms).Draw(rt, "denom")
 			amt, _ := math.NewIntFromString(rapid.SampledFrom(c04Amounts).Draw(rt, "amount"))
